@@ -185,7 +185,10 @@ impl<T: Pairable> GenericPair<T> {
     ) -> Result<Self, SchemeError> {
         match T::from_pair_iter(iter.into_iter()).into_pair() {
             Either::Left(pair) => Ok(pair),
-            Either::Right(_) => todo!(),
+            Either::Right(_) => error!(SyntaxError::ExpectSomething(
+                "list/pair".to_string(),
+                "atom".to_string()
+            )),
         }
     }
 
